@@ -92,8 +92,4 @@ def mholds (soft : Bool) : Stmt → Bool
 /-- hard meaning of a statement -/
 abbrev sholds : Stmt → Bool := mholds Γ ρ false
 
-/-- value in the declared type -/
-def inType (w : Nat) (s : Bool) (v : Int) : Bool :=
-  if s then decide (-(2 ^ (w - 1) : Int) ≤ v ∧ v < (2 ^ (w - 1) : Int)) else decide (0 ≤ v ∧ v < (2 ^ w : Int))
-
 end Pyvsc.Sem
